@@ -19,7 +19,7 @@ from consteval import Ev, Unknown, Raised, _FALL
 import exprnf as X
 from exprnf import C, V
 from cfront import (TU, CCFG, kids, kind, strip, walk, ctext, array_extent, calls_to, call_args, type_size,
-                    sizeof_operand_type, strip_comments)
+                    sizeof_operand_type, strip_comments, SKIP)
 from rules import c19 as G
 
 EXPLANATION = (
@@ -74,7 +74,17 @@ EXPLANATION = (
     "descriptor: a whole-struct copy, or hsn, maio, n and at least n entries of ma[] for the n stored (loop bound / copy size compared "
     "as folded terms with the stored n, program order by CFG dominance, differing terms folded over the 8-bit fields they read). "
     "A guard of fn2gsm_time that raises for a frame number of the hyperframe is decided exactly (C19.R1 machinery) and reported "
-    "with that frame number; a raise inside an inlined method is hoisted to a guarded raise of the caller.")
+    "with that frame number; a raise inside an inlined method is hoisted to a guarded raise of the caller. "
+    "R9 (what reaches the caller of rfch_get_params()): the function is forward-substituted once more with every integer conversion "
+    "clang resolved around the generator's value kept (return type of rfch_hop_seq_gen, locals, operators, the uint16_t output "
+    "parameter); the value stored on each path that uses the generator's result is folded for each of the 4096 values a Mobile "
+    "Allocation entry holds for a channel (ARFCN 0..1023 with the flags ARFCN_PCS / ARFCN_UPLINK) and must be the entry -- an entry "
+    "that is negative as a signed 16-bit result and is then taken for an error code is reported with that entry. "
+    "R10 (a resolve() that remembers its last result): the returned term is normalised to the remembered computation only under an "
+    "inductive invariant established on the terms (the constructor leaves a key no call can hit; every exit leaves the key compared "
+    "and the value computed on a miss; nobody else stores the memo; every input of the remembered computation is part of the key or "
+    "stored by the constructor only); independently R7 folds call sequences on one object with the state carried from call to call "
+    "whenever resolve() stores attributes, so a stale memo is refuted by a concrete call.")
 ASSUMPTIONS = [
     "spec/hopping.json is a faithful transcription of TS 45.002 table 6.2.3 and of the algorithm of clause 6.2.3",
     "NBIN is the number of bits needed to represent N (TS 45.002 6.2.3), so 2^NBIN - 1 == (1 << N.bit_length()) - 1; the mask is "
@@ -88,6 +98,11 @@ ASSUMPTIONS = [
     "evidence names it under structural_proofs",
     "firmware: hsn (uint8_t from L1CTL) is assumed to be in 0..63 (the property's domain) and struct gsm_time to satisfy "
     "t1 < 2048, t2 < 26, t3 < 51 (C19.R3 invariant); the list stored as HoppingParams.ma is not mutated after construction",
+    "C07.R9: a conversion to a signed integer type keeps the value modulo 2^width (what gcc and clang define); ARFCN_PCS / ARFCN_UPLINK "
+    "are bits 15 / 14 of the 16-bit ARFCN encoding (osmocom/gsm/gsm_utils.h) and a channel's entry has bits 10..13 clear; every call of "
+    "the generator in rfch_get_params() yields the selected entry converted to the generator's return type (R3, R6)",
+    "C07.R10: calls of resolve() on one object do not overlap (the clock thread resolves one frame at a time); comparing the key with == "
+    "is comparing its integer components; an exit of resolve() by exception is not followed by a hit for a frame of the domain",
     "C07.R8: functions called between the stores of one descriptor-writing sequence do not modify the descriptor copied from; struct l1s_h1 "
     "has the natural-alignment layout of its integer members; a hopping descriptor is reached only through expressions whose clang type is "
     "struct l1s_h1 (no type-punned access); the right-hand side of the ma[] element copy is not analysed",
@@ -527,6 +542,193 @@ class PySide:
                               "only HoppingParams.__init__ stores the hopping parameters and the mask",
                               "%s in %s" % (k, q), ok, node.lineno)
 
+    def _other_writers(self, attr):
+        """[(file, function, kind)] of every access other than a read to an attribute `attr` of a HoppingParams object in
+        the toolkit, outside HoppingParams.__init__ (the trees are the loader's: helpers already inlined).  `self.attr`
+        inside a class that neither is nor derives from HoppingParams is another object's attribute; a function that is
+        referenced nowhere any more (a helper whose every call was inlined) cannot run."""
+        out = []
+        for m in self.repo.tk_modules():
+            self.L.unit(m.rel)
+            for node, k in attr_accesses(m.tree, attr):
+                if k == "load":
+                    continue
+                q = qualname(node)
+                if m.name == "gsm_shared" and q == "HoppingParams.__init__":
+                    continue
+                cd = enclosing_class(node)
+                if isinstance(node.value, ast.Name) and node.value.id == "self" and cd is not None:
+                    ci = self.repo.cls(m, cd.name)
+                    if ci is not None and not any(c.name == "HoppingParams" for c in self.repo.mro(ci)):
+                        continue
+                out.append((m.rel, q, k, node))
+        return out
+
+    def _referenced(self, fname):
+        """the function / method name is mentioned somewhere in the toolkit other than at its definition"""
+        for m in self.repo.tk_modules():
+            for n in ast.walk(m.tree):
+                if (isinstance(n, ast.Attribute) and n.attr == fname) or (isinstance(n, ast.Name) and n.id == fname):
+                    return True
+                if isinstance(n, ast.Constant) and n.value == fname:
+                    return True                     # getattr(obj, "name")
+        return False
+
+    def _unmemo(self, out, raw):
+        """A resolve() that remembers its last result.  When the value resolve() returns reads attributes that resolve()
+        itself stores (state kept between calls), the returned term is a function of that state and says nothing by
+        itself.  It is normalised to the remembered computation only when this is PROVEN for every state the object can
+        be in -- an inductive invariant over the calls of resolve(), checked on resolved terms (no shapes of statements):
+
+            returned term   ...(HIT(V) if K == KEY else MISS)...   K, V: slots of the stored attributes (`self.A` or
+                                                                      `self.A[i]`), KEY / MISS free of that state
+            invariant       K is None, or V == CALC evaluated for the inputs K was built from
+            (1) the constructor leaves K = None and KEY is a tuple / the frame number (never equal to None)
+            (2) every normal exit of resolve() leaves V' == (V if K == KEY else CALC) and K' == KEY (or K on a hit), read
+                from the final environment of the forward substitution, and HIT(CALC) is the term MISS: a hit returns
+                the same function of the remembered value as a miss returns of the computed one
+            (3) nobody else stores the attributes (who-writes scan over the toolkit)
+            (4) the key is complete: every input of CALC is a component of KEY or an attribute / class-level table that
+                only the constructor stores (same scan)
+
+        Under (1)-(4) a hit returns HIT(CALC of the current inputs) == MISS, so resolve() returns what it returns with
+        MISS in the place of the conditional -- for every call sequence; the formula rules then judge that term.  Each of the four facts is
+        recorded as an obligation (C07.R10).  Anything that does not have this form, or where a fact cannot be
+        established, is ANALYSIS-ERROR: a stale memo is a matter for the witness sequences of R7 (resolve() folded
+        repeatedly on one object), which report a concrete counterexample."""
+        self.memo = None
+        stored = set()
+        for _c, o in G.leaves(out):
+            env = o[2] if o[0] == "ret" else o[1] if o[0] == "fall" else {}
+            stored |= {k for k, v in env.items() if k.startswith("self.") and v != V(k)}
+        state = {x[1] for x in G.subterms(raw) if x[0] == "v" and x[1] in stored}
+        if not state:
+            return raw
+        what = "HoppingParams.resolve() returns a value that depends on %s, which resolve() itself stores" % ", ".join(sorted(state))
+
+        def slot(t):
+            return (t[0] == "v" and t[1] in state) or (t[0] == "idx" and t[1][0] == "v" and t[1][1] in state and t[2][0] == "c")
+
+        def has_state(t):
+            return any(x[0] == "v" and x[1] in state for x in G.subterms(t))
+        def slots_of(t, acc):
+            if slot(t):
+                if t not in acc:
+                    acc.append(t)
+                return acc
+            for y in t[1:]:
+                if isinstance(y, tuple):
+                    slots_of(y, acc)
+            return acc
+        cands = []
+        for x in G.subterms(raw):
+            if x[0] == "ite" and x[1][0] == "cmp" and x[1][1] == "==" and has_state(x[2]) and not has_state(x[3]):
+                ks = [y for y in x[1][2:] if slot(y)]
+                key = [y for y in x[1][2:] if not has_state(y)]
+                if len(ks) == 1 and len(key) == 1 and (x, ks[0], key[0]) not in cands:
+                    cands.append((x, ks[0], key[0]))
+        if len(cands) != 1:
+            raise AnalysisError("%s, not as one remembered result `.. V .. if K == key else computation`; unclassifiable" % what)
+        x, Ks, KEY = cands[0]
+        vs = [y for y in slots_of(x[2], []) if y != Ks]
+        if len(vs) != 1:
+            raise AnalysisError("%s: the arm taken on a hit reads %d remembered values; unclassifiable" % (what, len(vs)))
+        Vs = vs[0]
+
+        def project(t, i):
+            if t is None:
+                return None
+            if t[0] == "tuple":
+                return t[i + 1] if 0 <= i < len(t) - 1 else None
+            if t[0] == "ite":
+                a, b = project(t[2], i), project(t[3], i)
+                return None if a is None or b is None else G.ite_(t[1], a, b)
+            if t[0] == "v":
+                return ("idx", t, C(i))
+            return None
+
+        def final(o, k):
+            if o[0] == "ret":
+                return o[2].get(k, V(k))
+            if o[0] == "fall":
+                return o[1].get(k, V(k))
+            if o[0] == "raise":
+                return None                 # an exit by exception selects no channel; the next call has its own key
+            a, b = final(o[2], k), final(o[3], k)
+            return b if a is None else a if b is None else G.ite_(o[1], a, b)
+
+        def of_slot(s, get):
+            return get(s[1]) if s[0] == "v" else project(get(s[1][1]), s[2][1])
+        line = self.resolve.lineno
+        names = {Ks: "K", Vs: "V"}
+        txt = lambda t: G.show(t, names)[:200]
+        # (1) cold start
+        k0 = of_slot(Ks, lambda a: self.init_env.get(a))
+        fnp = V(self.fn_param)
+        if k0 != V("None") or not (KEY[0] == "tuple" or KEY == fnp):
+            raise AnalysisError("%s: the constructor leaves the remembered key `%s` = %s and the key compared is `%s`; a first call "
+                                "that cannot hit is not established; unclassifiable" % (
+                                    what, G.show(Ks), G.show(k0) if k0 is not None else "?", G.show(KEY)[:80]))
+        # (2) preservation: what a miss stores, and the hit arm with it in the place of the remembered value is the miss arm
+        v1 = of_slot(Vs, lambda a: final(out, a))
+        k1 = of_slot(Ks, lambda a: final(out, a))
+        stored_ok = v1 is not None and v1[0] == "ite" and v1[1] == x[1] and v1[2] == Vs and not has_state(v1[3]) and \
+            k1 in (KEY, G.ite_(x[1], Ks, KEY))
+        if not stored_ok:
+            raise AnalysisError("%s: resolve() leaves `%s` = %s and `%s` = %s, not the key compared and a value computed on a miss; "
+                                "unclassifiable" % (what, G.show(Ks), txt(k1) if k1 is not None else "?", G.show(Vs),
+                                                    txt(v1) if v1 is not None else "?"))
+        CALC = v1[3]
+        hit = G.renorm(x[2], lambda t: CALC if t == Vs else KEY if t == Ks else None)
+        if hit != x[3]:
+            raise AnalysisError("%s: on a hit `%s` is returned, on a miss `%s` with `%s` remembered; not the same function of the "
+                                "remembered value; unclassifiable" % (what, txt(x[2]), G.show(x[3])[:120], G.show(CALC)[:120]))
+        new = G.renorm(raw, lambda t: x[3] if t == x else None)
+        if has_state(new):
+            raise AnalysisError("%s, also outside the remembered result `%s`; unclassifiable" % (what, G.show(Vs)))
+        # (3) no other writer of the state
+        attrs = sorted({(s[1] if s[0] == "v" else s[1][1]).split(".", 1)[1] for s in (Ks, Vs)})
+        for a in attrs:
+            for mrel, q, k, node in self._other_writers(a):
+                if mrel == F_GSM and q == "HoppingParams.resolve" and k == "store":
+                    continue
+                if not self._referenced(q.rsplit(".", 1)[-1]):
+                    continue
+                raise AnalysisError("%s; `%s` is also written (%s) in %s (%s); unclassifiable" % (what, a, k, q, mrel))
+        # (4) the key covers every input of the remembered computation
+        comps = KEY[1:] if KEY[0] == "tuple" else (KEY,)
+        hole = V("<key component>")
+        rest = sorted(variables(G.renorm(CALC, lambda t: hole if t in comps else None)) - {hole}, key=repr)
+        consts = []
+        for v in rest:
+            a = v[1].split(".", 1)[1] if v[1].startswith("self.") else None
+            if a is None or "." in a or not (v[1] in self.init_env or a in self.ci.attrs) or a in attrs:
+                raise AnalysisError("%s: the remembered computation reads `%s`, which is neither part of the key `%s` nor an "
+                                    "attribute only the constructor stores; unclassifiable" % (what, v[1], G.show(KEY)[:80]))
+            w = [(mrel, q, k) for mrel, q, k, _n in self._other_writers(a) if self._referenced(q.rsplit(".", 1)[-1])]
+            if w:
+                raise AnalysisError("%s: the remembered computation reads `%s`, which is not part of the key and is written (%s) in "
+                                    "%s (%s); unclassifiable" % (what, v[1], w[0][2], w[0][1], w[0][0]))
+            consts.append(v[1])
+        L = self.L
+        func = "HoppingParams.resolve"
+        memo = "remembered result of resolve() (`%s` returned when `%s` equals the key)" % (G.show(Vs), G.show(Ks))
+        L.ob("C07.R10", F_GSM, "HoppingParams.__init__", "%s: the constructor leaves no key that a call can hit" % memo,
+             "%s = None, key a tuple / the frame number" % G.show(Ks), "%s = %s, key %s" % (G.show(Ks), G.show(k0), G.show(KEY)[:120]),
+             True, self.init.lineno)
+        L.ob("C07.R10", F_GSM, func, "%s: every exit of resolve() leaves the key compared and the value returned" % memo,
+             "K' = key, V' = (V if K == key else computation); hit arm with the computation == miss arm",
+             "K' = %s, V' = (V if K == key else %s)" % (txt(k1), G.show(CALC)[:160]), True, line)
+        L.ob("C07.R10", F_GSM, func, "%s: only the constructor and resolve() store %s" % (memo, ", ".join(attrs)),
+             [], [], True, line)
+        L.ob("C07.R10", F_GSM, func, "%s: every input of the remembered computation is part of the key or stored by the "
+             "constructor only" % memo, "key components / constructor-only attributes",
+             "key %s; constructor-only: %s" % (G.show(KEY)[:120], ", ".join(consts) or "none"), True, line)
+        L.floor("C07.R10", "facts established for the remembered result of resolve()", 4, 4)
+        self.memo = {"key": G.show(KEY)[:200], "key_slot": G.show(Ks), "value_slot": G.show(Vs), "constructor_only_inputs": consts}
+        L.extra["resolve_memo"] = self.memo
+        return new
+
     def _resolve(self):
         fd = self.resolve
         ps = [a.arg for a in fd.args.args]
@@ -534,7 +736,8 @@ class PySide:
             raise AnalysisError("HoppingParams.resolve: expected (self, fn), found %r" % ps)
         self.fn_param = ps[1]
         sym = G.PySym(self.repo, self.mod, self.ci)
-        self.raw = sym.result(sym.run(fd))
+        out = sym.run(fd)
+        self.raw = self._unmemo(out, sym.result(out))
         A = self.attr
         ma_par = self.ma_par
         # the mask attribute, by role: an attribute the constructor stores (other than hsn/maio/ma) that
@@ -1307,8 +1510,8 @@ def _memo_check(L, repo, q, leaf, conds, fnp, line):
             for _c, o in G.leaves(sym.run(fd)):
                 env = o[2] if o[0] == "ret" else o[1] if o[0] == "fall" else {}
                 v = env.get(base[1], base)
-                if v == base:
-                    continue
+                if v == base or v == V("None"):
+                    continue                        # not stored on this path / reset to None
                 nw += 1
                 ok = v[0] == "tuple" and len(v) - 1 > max(ia, ib, j) and _is_resolve(v[j + 1]) and v[ia + 1][0] == "v" and \
                     _canon_resolve(v[j + 1]) == ("call", v[ia + 1][1] + ".resolve", v[ib + 1])
@@ -1481,13 +1684,80 @@ def r6_fh_stores(L, repo):
                             "unclassifiable" % "; ".join(unknown[:3]))
 
 
+C_INT_TYPES = {"signed char": (8, True), "unsigned char": (8, False), "short": (16, True), "unsigned short": (16, False),
+               "int": (32, True), "unsigned int": (32, False), "long long": (64, True), "unsigned long long": (64, False),
+               "int8_t": (8, True), "uint8_t": (8, False), "int16_t": (16, True), "uint16_t": (16, False),
+               "int32_t": (32, True), "uint32_t": (32, False), "int64_t": (64, True), "uint64_t": (64, False)}
+CAST = "cast:"
+
+
+def _c_int_type(node_or_type):
+    """(bits, signed) of the integer type clang resolved for an AST node (typedefs desugared), or None when it is not one
+    of the fixed-width / standard integer types whose width does not depend on the target's data model"""
+    t = node_or_type.get("type", node_or_type) if isinstance(node_or_type, dict) else {"qualType": node_or_type}
+    for qt in (t.get("desugaredQualType"), t.get("qualType")):
+        if qt:
+            r = C_INT_TYPES.get(" ".join(w for w in qt.split() if w not in ("const", "volatile")))
+            if r is not None:
+                return r
+    return None
+
+
+def _c_convert(v, bits, signed):
+    """conversion of an integer value to an integer type of `bits` bits: modulo 2^bits (C11 6.3.1.3 for unsigned targets; the
+    two's complement wrap gcc and clang define for signed ones)"""
+    v &= (1 << bits) - 1
+    return v - (1 << bits) if signed and v >= 1 << (bits - 1) else v
+
+
+class _TypedCL(G._CL):
+    """_CL that keeps the integer conversions clang resolved (IntegralCast nodes, implicit and explicit, and the result
+    type of an arithmetic operator) around every term that depends on the value of the hopping generator's call -- as
+    ('call', 'cast:<bits><s|u>', term).  Terms that do not depend on it are lowered exactly as before."""
+    ARITH = ("+", "-", "*", "/", "%", "<<", ">>", "&", "|", "^", "~")
+
+    def _depends(self, t):
+        return any(x[0] == "call" and x[1] == self.sym.keep for x in G.subterms(t))
+
+    def _conv(self, t, n):
+        if not self._depends(t):
+            return t
+        ty = _c_int_type(n)
+        if ty is None:
+            raise AnalysisError("the value of %s() is converted to `%s`; unclassifiable" % (
+                self.sym.keep, n.get("type", {}).get("qualType", "?")))
+        c = "%s%d%s" % (CAST, ty[0], "s" if ty[1] else "u")
+        return t if t[0] == "call" and t[1] == c else ("call", c, t)
+
+    def lower(self, n):
+        k = kind(n)
+        if k in ("ImplicitCastExpr", "CStyleCastExpr") and n.get("castKind") == "IntegralCast" and kids(n):
+            return self._conv(self.lower(kids(n)[0]), n)
+        if k in SKIP and kids(n):
+            return self.lower(kids(n)[0])
+        t = G._CL.lower(self, n)
+        if (k in ("BinaryOperator", "UnaryOperator") and n.get("opcode") in self.ARITH) or k == "CompoundAssignOperator" or \
+                (k == "UnaryOperator" and n.get("opcode") in ("++", "--")):
+            t = self._conv(t, n)
+        elif k == "CallExpr" and t[0] == "call" and t[1] == self.sym.keep:
+            t = self._conv(t, n)            # the call's value has the generator's return type
+        return t
+
+
 class _UseSym(G.CSym):
     """forward substitution that keeps a call of the hopping generator as an opaque term over its lowered arguments
-    (locals and the parameters of extracted helpers substituted), whatever it is handed"""
+    (locals and the parameters of extracted helpers substituted), whatever it is handed.  With `typed` the integer
+    conversions applied to the call's value are kept as well (_TypedCL)."""
 
-    def __init__(self, tu, keep):
+    def __init__(self, tu, keep, typed=False):
         G.CSym.__init__(self, tu)
         self.keep = keep
+        self.typed = typed
+
+    def lower(self, n, env):
+        if not self.typed:
+            return G.CSym.lower(self, n, env)
+        return G.renorm(_TypedCL(self, env).lower(n))
 
     def call(self, m, lw):
         ks = kids(m)
@@ -1705,6 +1975,149 @@ def r6_c_use(L, cs, rntable):
         raise AnalysisError("struct l1s_h1 vanished from layer1/sync.h")
     L.ob("C07.R6", F_SYNC_H, "struct l1s_h1", "the firmware's mobile allocation holds the 64 channels of the property's domain",
          ">= 64", flds.get("ma"), (array_extent(flds.get("ma")) or 0) >= 64)
+
+
+# ------------------------------------------------------------------------------
+# R9: the entry the generator selected reaches the caller of rfch_get_params() unchanged
+
+GEN_RESULT = V("<MA[MAI]>")
+ARFCN_FLAG_NAMES = ((0x8000, "ARFCN_PCS"), (0x4000, "ARFCN_UPLINK"))     # osmocom/gsm/gsm_utils.h
+CARRY_FREE_VALUES = (1, 2)          # two valuations of state the stored value may read besides the generator's result
+
+
+def arfcn_encodings():
+    """every value a Mobile Allocation entry holds for a channel: ARFCN 0..1023 with any combination of the band /
+    direction flags of the 16-bit ARFCN encoding (bits 15 and 14)"""
+    for f in (0, 0x4000, 0x8000, 0xc000):
+        for a in range(1024):
+            yield f | a
+
+
+def _arfcn_txt(e):
+    fl = [n for b, n in ARFCN_FLAG_NAMES if e & b]
+    return "0x%04x (ARFCN %d%s)" % (e, e & 0x3ff, "".join(" | " + n for n in fl))
+
+
+def _depends_on_result(t):
+    return any(x == GEN_RESULT for x in G.subterms(t))
+
+
+def _carried_arms(t, conds=()):
+    """(path conditions, sub-term) of the maximal sub-terms of a conditional term that depend on the generator's result,
+    reached through conditionals whose conditions do not depend on it"""
+    if t[0] == "ite" and not _depends_on_result(t[1]):
+        for pol, arm in ((True, t[2]), (False, t[3])):
+            if _depends_on_result(arm):
+                for x in _carried_arms(arm, conds + ((t[1], pol),)):
+                    yield x
+    elif _depends_on_result(t):
+        yield conds, t
+
+
+def _cast_call(name, args):
+    m = re.match(r"cast:(\d+)([su])$", name)
+    if m is None or len(args) != 1:
+        return None
+    return _c_convert(args[0], int(m.group(1)), m.group(2) == "s")
+
+
+def _reached_leaf(t, env):
+    """the operand whose value a conditional term takes under a valuation (conversions looked through)"""
+    while True:
+        if t[0] == "ite":
+            c = eval_term(t[1], env, _cast_call)
+            if c is None:
+                return t
+            t = t[2] if c else t[3]
+        elif t[0] == "call" and t[1].startswith(CAST):
+            t = t[2]
+        else:
+            return t
+
+
+def r9_c_carriage(L, cs):
+    """C07.R9 decides a necessary condition of the firmware clause "the selected channel is MA[MAI]" at the observation
+    point rfch_get_params(time) -> ARFCN: what rfch_get_params() stores through its ARFCN output parameter on a path that
+    uses the generator's result is that result -- the Mobile Allocation entry MA[MAI] (R3) -- for EVERY value an entry can
+    hold: ARFCN 0..1023 with the band / direction flags ARFCN_PCS (0x8000) and ARFCN_UPLINK (0x4000) of the 16-bit
+    encoding.  Decided from the types clang resolved and by folding, not from the way it is written: the whole of
+    rfch_get_params() (helpers substituted, temporaries resolved) is forward-substituted with every integer conversion
+    applied to the generator's value kept (the return type of rfch_hop_seq_gen, the types of locals, parameters, operators
+    and of the output parameter); the value stored, as a function of the selected entry, is folded by the checker's own
+    arithmetic for each of the 4096 encodings (finite, exhaustive) and must equal the entry.  An entry for which another
+    value is stored -- e.g. one with bit 15 set that is negative as a signed 16-bit result and is then taken for an error code
+    -- is an input of the property's domain on which the firmware does not tune to MA[MAI] (and differs from the simulator):
+    VIOLATION with that entry.  A stored value the folder cannot evaluate, or one that depends on other state without
+    differing from the entry on the tried valuations, gives no verdict."""
+    tu = cs.tu
+    g = tu.func("rfch_get_params")
+    L.fn(F_RFCH, "rfch_get_params")
+    gp = [p.get("name") for p in tu.fparams(g)]
+    if len(gp) < 2:
+        raise AnalysisError("rfch_get_params(): expected (t, arfcn_p, ...)")
+    gen_params = tu.fparams(cs.f)
+    ety = _c_int_type(re.sub(r"[*\[].*$", "", gen_params[4].get("type", {}).get("qualType", "")).strip())
+    if ety is None or ety[0] < 16:
+        raise AnalysisError("%s(): the Mobile Allocation is handed over as `%s`; entries of 16 bits expected; unclassifiable" % (
+            cs.HOP, gen_params[4].get("type", {}).get("qualType", "?")))
+    rty_txt = cs.f.get("type", {}).get("qualType", "").split("(")[0].strip()
+    sym = _UseSym(tu, cs.HOP, typed=True)
+    out = sym.run(g)
+    val = sym.final(out, "*%s" % gp[1])
+    # one generator: its calls (whatever arguments, judged by R6) stand for the entry it selected
+    val = G.renorm(val, lambda t: GEN_RESULT if t[0] == "call" and t[1] == cs.HOP else None)
+    arms = list(_carried_arms(val))
+    L.floor("C07.R9", "paths of rfch_get_params() that store a value computed from the generator's result", len(arms), 1)
+    encs = list(arfcn_encodings())
+    prefer = [0x8000 | 512, 0x4000 | 512, 0xc000 | 512, 512, 1, 1023]
+    for i, (conds, post) in enumerate(arms):
+        free = sorted((v for v in variables(post) if v != GEN_RESULT), key=repr)
+        bad, k, unfolded = {}, 0, []
+        for e in encs:
+            ent = _c_convert(e, *ety)
+            for fv in CARRY_FREE_VALUES if free else CARRY_FREE_VALUES[:1]:
+                env = {v: fv for v in free}
+                env[GEN_RESULT] = ent
+                got = eval_term(post, env, _cast_call)
+                k += 1
+                if got is None:
+                    unfolded.append(e)
+                elif got != ent and e not in bad:
+                    bad[e] = (got, env)
+        if unfolded and not bad:
+            # (an entry on which another value is stored is a counterexample whatever happens for the entries that leave the
+            # folder's arithmetic)
+            raise AnalysisError("rfch_get_params(): the value `%s` stored through *%s cannot be folded for the Mobile "
+                                "Allocation entry %s; unclassifiable" % (_disp(G.show(post))[:160], gp[1], _arfcn_txt(unfolded[0])))
+        key = "rfch_get_params(): the ARFCN stored through the output parameter on a path that uses the result of %s() is the " \
+            "Mobile Allocation entry it selected, for every 16-bit entry value (ARFCN 0..1023 with ARFCN_PCS / ARFCN_UPLINK)%s" % (
+                cs.HOP, "" if len(arms) == 1 else " [path %d: %s]" % (
+                    i + 1, " and ".join(G.show(G.truth(c if p else ("not", c)))[:60] for c, p in conds) or "always"))
+        want = "the selected entry, for all %d encodings" % len(encs)
+        if bad:
+            e = ([x for x in prefer if x in bad] or sorted(bad))[0]
+            got, env = bad[e]
+            leaf = _reached_leaf(post, env)
+            rty = _c_int_type(rty_txt)
+            raw = _c_convert(env[GEN_RESULT], *rty) if rty else env[GEN_RESULT]
+            what = "`%s` (= 0x%04x in this fold) is stored instead" % (_disp(G.show(leaf))[:80], got & 0xffff) \
+                if leaf != GEN_RESULT else "0x%04x is stored" % (got & 0xffff)
+            common = [n for b, n in ARFCN_FLAG_NAMES if all(x & b for x in bad)]
+            L.ob("C07.R9", F_RFCH, "rfch_get_params", key, want,
+                 "entry %s: %s() returns it as `%s` (value %d) and %s -- stored value `%s`; differs for %d of %d "
+                 "encodings%s%s" % (_arfcn_txt(e), cs.HOP, rty_txt, raw, what, _disp(G.show(post))[:240], len(bad), len(encs),
+                                    " (every one of them carries %s)" % " and ".join(common) if common else "",
+                                    "; %d more leave the folder's arithmetic" % len(set(unfolded)) if unfolded else ""),
+                 False, tu.line(g))
+            continue
+        if free:
+            raise AnalysisError("rfch_get_params(): the value `%s` stored through *%s depends on %s besides the generator's result "
+                                "and equals the selected entry on the valuations tried; unclassifiable" % (
+                                    _disp(G.show(post))[:160], gp[1], ", ".join(_disp(v[1]) for v in free[:3])))
+        L.ob("C07.R9", F_RFCH, "rfch_get_params", key, want,
+             "equal for all %d encodings (stored value `%s`, %s() returns `%s`; exhaustive fold)" % (
+                 len(encs), _disp(G.show(post))[:200], cs.HOP, rty_txt), True, tu.line(g))
+    L.extra["arfcn_carriage"] = {"encodings_folded": len(encs), "paths": len(arms), "generator_return_type": rty_txt}
 
 
 # ------------------------------------------------------------------------------
@@ -2412,6 +2825,15 @@ def witness_fns(rntable, hsn, n, full):
     return sorted(set(out + [FN_T1_64, FN_LAST]))
 
 
+def warm_sequence(fns):
+    """frames resolved one after the other on one object: the first two and the last two witnesses, each pair as
+    a, a, b, a (a repeated frame, another frame, the first one again)"""
+    seq = []
+    for a, b in ((fns[0], fns[1 % len(fns)]), (fns[-1], fns[0])):
+        seq += [a, a, b, a]
+    return seq
+
+
 def r7_witnesses(L, repo, spec):
     """C07.R7 decides, on the simulator side, the clause "the selected channel is MA[MAI], MAI = (S + MAIO) mod N
     (cyclic: (FN + MAIO) mod N)" for the *object as constructed*: HoppingParams.__init__ and then resolve() are folded by
@@ -2463,10 +2885,17 @@ def r7_witnesses(L, repo, spec):
         obj.update({k: v for k, v in ev.env.items() if isinstance(k, str) and k.startswith("self.")})
         return obj
 
-    def select(obj, fn):
+    stateful = []
+
+    def select(obj, fn, carry=False):
         ev = ObjEv(repo, mod, env=dict(obj, **{rps[1]: fn}), self_cls=ci)
         try:
             r = ev.run_block(resolve.body)
+            after = {k: v for k, v in ev.env.items() if isinstance(k, str) and k.startswith("self.")}
+            if not stateful and any(k not in obj or obj[k] != v for k, v in after.items()):
+                stateful.append(fn)         # resolve() stores attributes of the object: its result may depend on earlier calls
+            if carry:
+                obj.update(after)
         except Raised as e:
             if isinstance(e.node, (ast.Raise, ast.Assert)):
                 # an explicit raise / failed assertion reached with a frame number of the property's domain: no channel
@@ -2488,6 +2917,7 @@ def r7_witnesses(L, repo, spec):
                                ("pseudo-random hopping (HSN %s): MA[(S + MAIO) mod N]" % ", ".join(map(str, WITNESS_HSN)),
                                 WITNESS_HSN)):
                 bad, k = [], 0
+                wbad, wk = [], 0
                 for hsn in hsns:
                     fns = witness_fns(rntable, hsn, n, full)
                     for maio in witness_maio(n, full):
@@ -2498,7 +2928,28 @@ def r7_witnesses(L, repo, spec):
                             k += 1
                             if got != ma[mai]:
                                 bad.append((hsn, maio, fn, s, mai, "MA[%d]" % ma.index(got) if got in ma else repr(got)[:40]))
-                folded += k
+                        if stateful:
+                            # the object keeps state between calls: the same frames resolved one after the other on ONE object
+                            # (a frame repeated, another frame, the first one again), the state carried from call to call
+                            live, prev = dict(obj), None
+                            for fn in warm_sequence(fns):
+                                got = select(live, fn, carry=True)
+                                mai, s, _ = ref_select(rntable, hsn, maio, n, fn)
+                                wk += 1
+                                if got != ma[mai]:
+                                    wbad.append((hsn, maio, fn, s, mai, "MA[%d]" % ma.index(got) if got in ma else repr(got)[:40], prev))
+                                prev = fn
+                folded += k + wk
+                if wk:
+                    wfound = "equal for all %d calls" % wk
+                    if wbad:
+                        h, m, fn, s, mai, got, prev = wbad[0]
+                        wfound = "N = %d, MAIO = %d, HSN = %d: resolve(%d) after resolve(%s) on the same object: MA[%d] expected, %s " \
+                            "selected; differs for %d of %d calls" % (n, m, h, fn, prev, mai, got, len(wbad), wk)
+                    L.ob("C07.R7", F_GSM, "HoppingParams.resolve",
+                         "N = %d channels, %s is what resolve(FN) selects whatever was resolved on the same object before (resolve() "
+                         "stores attributes of the object; call sequences folded with the state carried)" % (n, mode),
+                         "equal for all %d calls" % wk, wfound, not wbad, resolve.lineno)
                 found = "equal for all %d witnesses" % k
                 if bad:
                     h, m, fn, s, mai, got = bad[0]
@@ -2545,4 +2996,5 @@ def run(L, tier):
     L.stage(r6_py_returns, L, py_s)
     L.stage(r6_getters, L, repo)
     L.stage(r6_c_use, L, cs, spec["RNTABLE"])
+    L.stage(r9_c_carriage, L, cs)
     L.stage(r8_descriptor_writers, L, tier)
